@@ -168,12 +168,19 @@ func (conf *AllClusterBackend) Check() error {
 
 func (s *SubClusterBackend) Check() error {
 	availBackend := false
+	addrInfos := make(map[string]bool)
 	for index, backendConf := range *s {
 		err := BackendConfCheck(backendConf)
 
 		if err != nil {
 			return fmt.Errorf("%d %s", index, err)
 		}
+
+		// a backend is identified by addr:port within a sub-cluster (see BalanceRR.Update())
+		if addrInfos[backendConf.AddrInfo()] {
+			return fmt.Errorf("%d duplicate backend %s", index, backendConf.AddrInfo())
+		}
+		addrInfos[backendConf.AddrInfo()] = true
 
 		if *backendConf.Weight > 0 {
 			availBackend = true
